@@ -18,7 +18,7 @@ open SqlLineage Ast Holder Graph
 
 structure Env where
   cfgDefault : String := ""                 -- SQLLineageConfig.DEFAULT_SCHEMA at call time ("" = unset)
-  importDefault : String := Gen.Const.schemaUnknown   -- `Schema()` default argument of `Table.__init__`, fixed at import
+  importDefault : String := Gen.Const.schemaUnknown   -- schema of the fallback `Table(qualifier)`: before the repair of D17 the import‑time `Schema()`, since then `defaultSchema` (the driver instantiates it so, `IO.Sql.configOf`)
   prov : ProvView := ProvView.none
   ro : Render.Opts := {}
   revStar : Nat := 0                   -- iterate `set(alias_mapping.values())` in the opposite order (C11)
